@@ -117,7 +117,7 @@ def fields_of(b):
 
 class SetupSub(Sub):
     name = "setup"
-    budget = {"quick": 16000, "thorough": 250000}
+    budget = {"quick": 12000, "thorough": 200000}
     rule = ("sequences of data packets shaped like the link receiver's output (setup flag on/off, 0..16 bytes "
             "weighted to 8/4/12, inter-word gaps, good / bad / aborted endings, occasional stray strobes); oracle: "
             "packet.received strobes exactly once after each packet that is flagged setup, exactly 8 bytes and "
@@ -350,7 +350,7 @@ class _DescDriver:
 
 class DescriptorSub(Sub):
     name = "descriptor"
-    budget = {"quick": 8000, "thorough": 100000}
+    budget = {"quick": 6000, "thorough": 80000}
     rule = ("6 descriptor collections (1..121-byte descriptors of several types/indices, lengths around word "
             "multiples); request sequences with known values, near-miss unknown values (wrong index / wrong type / "
             "random), wLength around the descriptor length, far above, 1..3 and 0, and tx.ready patterns; oracle: "
